@@ -66,7 +66,7 @@ def gen_ops(ctx):
     M = 8 if th else 5
     def se(ks, kind):
         """kind 0: point-symmetric and transpose-invariant (cross, square, disc-like); 1: point-symmetric only
-           (e.g. a horizontal line: hits the known finding C16-morph-se-transposed); 2: arbitrary"""
+           (e.g. a horizontal line: the fixed finding C16-morph-se-transposed); 2: arbitrary"""
         k = [[r.below(2) for _ in range(ks)] for _ in range(ks)]
         if kind <= 1:
             for a in range(ks):
@@ -83,6 +83,9 @@ def gen_ops(ctx):
         if r.chance(1, 8): k = [[1] * ks for _ in range(ks)]
         if r.chance(1, 10): k = [[0] * ks for _ in range(ks)]
         return [k[a][b] * r.choice([1, 1, 2, 255]) for a in range(ks) for b in range(ks)]
+    # witnesses of the fixed finding C16-morph-se-transposed: horizontal / vertical line structuring elements
+    ops.append("mo u8 3 3 3 1 1 1 | 0 0 0 1 1 1 0 0 0 | 0 0 0 0 9 0 0 0 0")
+    ops.append("mo u8 3 3 3 1 1 1 | 0 1 0 0 1 0 0 1 0 | 0 0 0 0 9 0 0 0 0")
     for ch in ("u8", "i8", "u16", "i16"):
         for w in range(1, M + 1):
             for h in range(1, M + 1):
